@@ -1087,6 +1087,35 @@ func (e *SpecEnv) evalCall(x *SX) (*SV, error) {
 			}
 			iv := e.stateOf(v).toIface(e.value(v))
 			return &SV{V: Ite(Eq(iv.Tag, e.vc.typeTag(pt)), iv.Data, IntC(0)), T: pt}, nil
+		case "dynval":
+			// dynval(x, T): the value of integer (or named integer) type T boxed in the interface value x; 0 when x
+			// holds a value of another type. (Integers are boxed as themselves, see makeIface.)
+			if len(args) != 2 {
+				return nil, fmt.Errorf("dynval(interface value, integer type)")
+			}
+			v, err := e.eval(args[0])
+			if err != nil {
+				return nil, err
+			}
+			tv, err := e.eval(args[1])
+			if err != nil {
+				return nil, err
+			}
+			tm, ok := tv.V.(typeMarker)
+			if !ok {
+				return nil, fmt.Errorf("dynval: second argument must be a type")
+			}
+			if b, isBasic := under(tm.T).(*types.Basic); !isBasic || b.Info()&types.IsInteger == 0 {
+				return nil, fmt.Errorf("dynval: only integer types are supported")
+			}
+			if _, isIface := under(v.T).(*types.Interface); !isIface {
+				return nil, fmt.Errorf("dynval needs an interface value")
+			}
+			iv := e.stateOf(v).toIface(e.value(v))
+			if s := scalarSort(tm.T); s != nil && s.Kind == SBV {
+				return &SV{V: Ite(Eq(iv.Tag, e.vc.typeTag(tm.T)), Int2BV(iv.Data, s.Width), BVC(0, s.Width)), T: tm.T}, nil
+			}
+			return &SV{V: Ite(Eq(iv.Tag, e.vc.typeTag(tm.T)), iv.Data, IntC(0)), T: tm.T}, nil
 		case "spawnedTotal":
 			// spawnedTotal(): number of go statements executed so far (ghost)
 			ki := e.vc.reg.get("ghost:spawnedTotal", 0, IntSort, nil)
